@@ -34,9 +34,13 @@ def handleC03 (args : List String) (impl : String) : Verdict :=
   match parseCase args impl with
   | some p =>
     let (m, _, _) := modelObs p
-    let ok := hashInv p.implSt
+    let consistent := hashInv p.implSt
+    -- "a store verification finds nothing to repair": on a consistent store, verification in repair mode changes no hash
+    let verifyOk := p.verify.isNone || p.verify == some "verify=same"
+    let ok := consistent && verifyOk
     let nullVal := (impl.splitOn ",null,").length > 1
-    { model := m, spec := some ok, note := if ok then "" else if nullVal then "class=null-value" else "class=hash-mismatch" }
+    { model := m, spec := some ok, note := if ok then "" else if nullVal then "class=null-value" else if !consistent then "class=hash-mismatch"
+        else "class=verification-changes-consistent-store" }
   | none => bad "C03 parse"
 
 end Driver.C01
